@@ -44,6 +44,7 @@ type program struct {
 	Clients  [][]opSpec `json:"clients"`
 	Prefix   []string   `json:"prefix"`
 	Seq      bool       `json:"seq,omitempty"` // sequential timeline: every op is issued at a quiescent point
+	NoGates  bool       `json:"nogates,omitempty"` // long sequential chains: the limiter's decision points are recorded but do not park
 }
 
 var base = time.Unix(1_000_000, 0)
@@ -266,7 +267,11 @@ func runSchedule(b, hb *tv.Batch, prog program, seed int64) result {
 	for _, g := range goroutines() {
 		baseline[g.id] = true
 	}
-	ctl := sched.New("coal.*", "consumer.take")
+	gates := []string{"coal.*", "consumer.take"}
+	if prog.NoGates {
+		gates = []string{"consumer.take"}
+	}
+	ctl := sched.New(gates...)
 	ctl.OnEvent = func(point string, args []any) { rec.hook(point) }
 	ratelimiting.VerifHook = func(point string, kv ...any) { ctl.Point(point, kv...) }
 	defer func() { ratelimiting.VerifHook = nil }()
@@ -382,7 +387,7 @@ func runSchedule(b, hb *tv.Batch, prog program, seed int64) result {
 			}
 		}
 	}
-	d := &sched.Driver{C: ctl, Rng: rng, MaxSteps: 3000}
+	d := &sched.Driver{C: ctl, Rng: rng, MaxSteps: 6000}
 	d.AtQuiescence = func(parked []*sched.Parked, s sched.Snapshot) {
 		np, consParked := 0, false
 		for _, p := range parked {
@@ -441,8 +446,8 @@ func runSchedule(b, hb *tv.Batch, prog program, seed int64) result {
 	err = d.Run()
 	if err == nil {
 		// move the clock past every window, then drain: the slow consumer now reads freely; run until nothing moves
-		rec.ev("adv", tv.M{"now": nowMs() + 100})
-		clk.Step(100 * time.Millisecond)
+		rec.ev("adv", tv.M{"now": nowMs() + prog.M + 100})
+		clk.Step(time.Duration(prog.M+100) * time.Millisecond)
 		draining.Store(true)
 		d2 := &sched.Driver{C: ctl, Rng: rng, MaxSteps: 3000, AtQuiescence: d.AtQuiescence, Extra: d.Extra}
 		err = d2.Run()
@@ -588,6 +593,47 @@ func genSequential(rng *rand.Rand) program {
 	return p
 }
 
+// longBurst: one uninterrupted chain of n Adds (InitialDelay i ms, MaxDelay m ms, no cap): every Add is issued and fully
+// handled before the next, and the clock moves by less than the current window between two Adds, so the window never
+// expires while it doubles from i up to m and then stays at m.  Then the window is left to expire: nothing just before
+// its end, exactly one more signal at its end, nothing afterwards.  The expected instants are the contract's, not Go's;
+// Go only needs the current window length to choose steps that stay inside it.
+func longBurst(i, m, n int, consumer string, rng *rand.Rand) program {
+	p := program{I: i, M: m, Consumer: consumer, Prefix: []string{}, Seq: true, NoGates: true}
+	ops := []opSpec{{Op: "add", N: 1, Idle: true}}
+	w := i
+	for k := 2; k <= n; k++ {
+		var d int
+		switch rng.Intn(3) {
+		case 0:
+			d = w - 1
+		case 1:
+			d = w / 2
+		default:
+			d = 1
+		}
+		if d < 1 {
+			d = 1
+		}
+		if d < w { // a window of 1 ms leaves no room for a step inside it
+			ops = append(ops, opSpec{Op: "adv", N: d, Idle: true})
+		}
+		ops = append(ops, opSpec{Op: "add", N: 1, Idle: true})
+		if w < m {
+			w *= 2
+			if w > m {
+				w = m
+			}
+		}
+	}
+	if w > 1 {
+		ops = append(ops, opSpec{Op: "adv", N: w - 1, Idle: true})
+	}
+	ops = append(ops, opSpec{Op: "adv", N: 1, Idle: true}, opSpec{Op: "adv", N: m, Idle: true}, opSpec{Op: "add", N: 1, Idle: true})
+	p.Clients = [][]opSpec{ops}
+	return p
+}
+
 func keyOf(why string, r result) string {
 	if strings.HasPrefix(why, "deadlock:") {
 		d := r.deadlock
@@ -654,8 +700,8 @@ func TestCheck(t *testing.T) {
 		{I: 1, M: 2, Consumer: "prompt", Clients: [][]opSpec{{A(1), idle(A(1)), idle(ADV(2))}, {after(A(1), 2)}, {after(ADV(1), 2)}}},
 		{I: 2, M: 2, Consumer: "prompt", Clients: [][]opSpec{{A(1), idle(ADV(2)), A(1)}, {after(A(1), 1)}, {after(ADV(2), 1)}}},
 	}
-	nStaged := ev.Pick(6, 50)
-	nRandProg := ev.Pick(65, 800)
+	nStaged := ev.Pick(5, 50)
+	nRandProg := ev.Pick(60, 800)
 	nSchedPer := ev.Pick(3, 5)
 	nSeq := ev.Pick(35, 500)
 	inconcl, nSeqRun := 0, 0
@@ -688,6 +734,23 @@ func TestCheck(t *testing.T) {
 		run(genSequential(rng), rng.Int63())
 		nSeqRun++
 	}
+	// long chains: the window keeps following "doubles from the initial delay up to the maximum" however long the burst
+	type lb struct{ i, m, n int }
+	const sec, hour = 1000, 3600 * 1000
+	longs := []lb{{1 * sec, 5 * sec, 40}, {2 * sec, hour, 70}, {1 * sec, 1 * sec, 130}, {2, 15, 70}, {500, 5 * sec, 70}}
+	if ev.Thorough() {
+		for _, n := range []int{40, 70, 130} {
+			for _, im := range [][2]int{{1 * sec, 5 * sec}, {2 * sec, 5 * sec}, {1 * sec, 60 * sec}, {2 * sec, 600 * sec}, {1 * sec, hour}, {2 * sec, hour},
+				{1 * sec, 1 * sec}, {2 * sec, 2 * sec}, {1, 1}, {1, 7}, {3, 3}, {500, 5 * sec}, {100, hour}} {
+				longs = append(longs, lb{im[0], im[1], n})
+			}
+		}
+	}
+	nLong := 0
+	for k, l := range longs {
+		run(longBurst(l.i, l.m, l.n, []string{"prompt", "slow"}[k%2], rng), rng.Int63())
+		nLong++
+	}
 	for i := 0; i < nRandProg; i++ {
 		p := genProgram(rng)
 		for j := 0; j < nSchedPer; j++ {
@@ -715,7 +778,8 @@ func TestCheck(t *testing.T) {
 	e.Set("evaluations", int64(b.Len()))
 	e.Set("traces_validated_against_impl", int64(jb.Len()))
 	e.Set("sequential_timelines", int64(nSeqRun))
-	e.Set("rule", "a case = (configuration InitialDelay 1-3 ms <= MaxDelay <= 15 ms, MaxPendingEvents unset/1-4, prompt or slow consumer; client program: 1-3 goroutines issuing Add bursts, clock advances inside / exactly at / beyond window ends, cancel, one or two Close) x (seeded schedule over the limiter's decision points coal.run.top/input/timer, coal.add.beforeSend, coal.fire.beforeSend, coal.close.beforeLock and the slow consumer); staged programs + sequential timelines (every op at a quiescent point: unique signal timeline, exact comparison) + random programs; non-trivial = schedule longer than 6 choices; distinct by (program, schedule)")
+	e.Set("long_burst_timelines", int64(nLong))
+	e.Set("rule", "a case = (configuration InitialDelay 1-3 ms <= MaxDelay <= 15 ms, MaxPendingEvents unset/1-4, prompt or slow consumer; client program: 1-3 goroutines issuing Add bursts, clock advances inside / exactly at / beyond window ends, cancel, one or two Close) x (seeded schedule over the limiter's decision points coal.run.top/input/timer, coal.add.beforeSend, coal.fire.beforeSend, coal.close.beforeLock and the slow consumer); staged programs + sequential timelines (every op at a quiescent point: unique signal timeline, exact comparison) + long-burst timelines (one chain of 40/70/130 Adds inside a never-expiring window, InitialDelay 1 ms-2 s, MaxDelay up to 1 h, then expiry) + random programs; non-trivial = schedule longer than 6 choices; distinct by (program, schedule)")
 	for _, k := range []int{0, len(idx) / 2, len(idx) - 1} {
 		if len(idx) == 0 {
 			break
@@ -807,6 +871,7 @@ func modelCheck(e *ev.Evidence) {
 		{name: "MC_defect_capeq.cfg", want: "MonitorOK", workers: 3, to: 3 * time.Minute},
 		{name: "MC_defect_skipfire.cfg", want: "MonitorOK", workers: 3, to: 3 * time.Minute},
 		{name: "MC_defect_close2.cfg", want: "MonitorOK", workers: 2, to: 3 * time.Minute},
+		{name: "MC_defect_alwaysdouble.cfg", want: "MonitorOK", workers: 2, to: 3 * time.Minute},
 	}
 	if ev.Thorough() {
 		cfgs[0] = cfg{name: "MC_big.cfg", workers: 8, to: 40 * time.Minute}
